@@ -46,3 +46,27 @@ def replay_block_pair(path):
             break
     print("REPRODUCED" if reproduced else "NOT REPRODUCED")
     return 1 if reproduced else 0
+
+
+def replay_spec(path):
+    """re-run the front-end on the recorded block and re-decide specification vs block"""
+    with open(path) as f:
+        doc = json.load(f)
+    rp = doc["replay"]
+    gasol.setup_process(rp["options"])
+    import importlib
+    c02 = importlib.import_module("checks.c02")
+    print("property:", doc["property"], "| options:", gasol.optset_name(rp["options"]))
+    reproduced = False
+    for cand in (rp.get("core"), rp.get("input")):
+        if not cand:
+            continue
+        for b in gasol.parse_plain(cand):
+            for rec in c02.check_block(b, 8):
+                print(cand, "=>", rec["verdict"], rec.get("why"), rec.get("observed"), rec.get("overlaps"))
+                if rec["verdict"] == "different" or rec.get("overlaps"):
+                    reproduced = True
+        if reproduced:
+            break
+    print("REPRODUCED" if reproduced else "NOT REPRODUCED")
+    return 1 if reproduced else 0
